@@ -44,7 +44,8 @@ func init() {
 }
 
 type KnownFinding struct {
-	Property string          `json:"property"`
+	Property   string          `json:"property"`
+	Properties []string        `json:"properties,omitempty"`
 	ID       string          `json:"id"`
 	Status   string          `json:"status"`
 	What     string          `json:"what"`
@@ -364,7 +365,13 @@ func RunCheck(cfg *CheckConfig) *CheckOutcome {
 	known := LoadKnown(filepath.Join(cfg.VerifDir, "known_findings.json"))
 	openKnown := map[string]KnownFinding{}
 	for _, k := range known.Findings {
-		if k.Property == cfg.Property && k.Status == "open" {
+		applies := k.Property == cfg.Property
+		for _, p := range k.Properties {
+			if p == cfg.Property {
+				applies = true
+			}
+		}
+		if applies && k.Status == "open" {
 			openKnown[k.ID] = k
 		}
 	}
